@@ -85,22 +85,27 @@ def counter_part(ctx):
         if res["ok"]:
             exact += 1
             continue
-        m = res["mismatch"]
-        art = {"capacity": res["cap"], "ops": ops, "mismatch": m}
-        f = m["field"]
-        if f == "bounded":
-            ctx.violation("counter-over-capacity/cap-%d" % res["cap"],
-                          "counter tracks %s keys with capacity %s after %s" % (m["got"], m["want"], ops), art)
-        elif f in ("counts", "latched"):
-            ctx.violation("counter-inexact/%s" % ("latch" if f == "latched" else m["op"].split()[0].lower()),
-                          "counts differ from the accesses since admission: want %s got %s after %s" % (m["want"], m["got"], ops), art)
-        elif f == "evicts-minimum":
-            ctx.violation("eviction-not-minimum/cap-%d" % res["cap"],
-                          "evicted a key with count %s while the lowest count was %s" % (m["got"], m["want"]), art)
-        else:
+        # the statement, judged on the real object (the replay goes on after a drift from the model)
+        m = res.get("prop")
+        if m:
+            art = {"capacity": res["cap"], "ops": ops, "property_break": m, "first_drift_from_model": res.get("drift")}
+            f = m["field"]
+            upto = ops[:m["step"] + 1]
+            if f == "bounded":
+                ctx.violation("counter-over-capacity/tracks-more-than-capacity",
+                              "counter of capacity %s tracks %s keys after %s" % (m["want"], m["got"], upto), art)
+            elif f in ("counts", "latched"):
+                ctx.violation("counter-inexact/%s" % ("latch" if f == "latched" else "tracked-count"),
+                              "counts differ from the accesses since admission: want %s got %s after %s" % (m["want"], m["got"], upto), art)
+            elif f == "evicts-minimum":
+                ctx.violation("eviction-not-minimum/colder-key-still-tracked",
+                              "capacity %d: %s evicted %s while the lowest count among the tracked keys was %s (%s)"
+                              % (res["cap"], upto, m["got"], m["want"]["lowest_count"], m["want"]["tracked_before"]), art)
+        d = res.get("drift")
+        if d:
             # order of equal counts / victim among the minima / list structure / panic: not what the
             # statement is about, but the code left the model
-            conformance.append(art)
+            conformance.append({"capacity": res["cap"], "ops": ops, "drift": d, "property_break": m})
     ctx.cov["traces_validated_against_impl"] += exact
     ctx.cov["counter_replay"] = {"behaviours": len(allb), "state_equal_after_every_step": exact,
                                  "steps": sum(r["steps"] for r in results)}
@@ -118,8 +123,12 @@ def counter_part(ctx):
         if p.get("cap255") != "ok":
             conformance.append({"probe": p})
     if conformance:
+        broke = sum(1 for c in conformance if c.get("property_break"))
+        ctx.cov["counter_drift"] = {"behaviours_that_left_the_model": len(conformance), "of_which_broke_a_stated_property": broke}
         ctx.notes.append("counter conformance mismatches: %s" % json.dumps(conformance[:3])[:1500])
-        raise kit.Inconclusive("real counter left the model without breaking a stated property: %s" % json.dumps(conformance[0])[:800])
+        return ("real counter left the model in %d behaviours (%d of them also broke a stated property): %s"
+                % (len(conformance), broke, json.dumps(conformance[0])[:800]))
+    return None
 
 
 # ----------------------------------------------------------------------------- collector
@@ -303,7 +312,7 @@ def run(ctx):
         "the logarithmic counter is modelled as bounded nondeterminism (val' in val..min(255, val+n), a zero counter always leaves zero); its distribution is not checked",
         "collect and evictStale never overlap each other (both run on Collector.Run's goroutine)",
     ]
-    counter_part(ctx)
+    drift = counter_part(ctx)
     collector_models(ctx)
     collector_part(ctx)
     if ctx.thorough:
@@ -315,3 +324,6 @@ def run(ctx):
         "non-trivial = a clock tick inside a job, a reader view that differs from the report before and after the job, or >= 2 periods; "
         "e2e cases = distinct HOTKEY replies. Judged by the statement's predicates only (TLC invariants on the recorded trace, "
         "state equality with the model for the counter).")
+    if drift:
+        # pure drift (no stated property broken) is not a verdict; recorded violations stand
+        raise kit.Inconclusive(drift)
